@@ -1194,7 +1194,7 @@ func TestVerifC01Pkg(t *testing.T) {
 				continue
 			}
 			q := m.Question[0]
-			if cn, ok := C01Canon(q.Name); !ok || cn != q.Name || len(q.Name) > 253 {
+			if cn, ok := C01Canon(q.Name); !ok || cn != q.Name || len(q.Name) > 254 {
 				continue
 			}
 			o := m.IsEdns0()
